@@ -210,6 +210,15 @@ func coverageMinimums() map[string]int64 {
 	row("remap|over-pages-placed-by=migrate", 50)
 	row("dist|over-pages-placed-by=migrate", 30)
 	m["op|refill-frees-a-buffer|placed-by=migrate:gpu"] = 15
+	// sibling contexts
+	row("free|via=sibling|other-process-has-same-vaddr=no", 1000)
+	row("free|via=sibling|other-process-has-same-vaddr=yes-created-earlier", 90)
+	row("free|via=sibling|other-process-has-same-vaddr=yes-created-later", 70)
+	row("free|via=allocating-context|other-process-has-same-vaddr=yes-created-earlier", 250)
+	row("remap|via=sibling", 800)
+	row("dist|via=sibling", 400)
+	row("migrate|process-named-via=sibling", 350)
+	row("alloc|through=sibling-context", 4000)
 	m["op_migrate"] = 1000
 	m["migrated_pages"] = 1500
 	m["frames_from_a_migration_reused_after_free"] = 80
